@@ -18,9 +18,9 @@ from lib.main import Case, Suite
 from props import lib_exec as X
 from props import lib_server as L
 
-GENERATORS = ["server", "exec", "store", "pdu", "framer_tcpascii", "framer_rtubin"]
+GENERATORS = ["server", "exec", "store", "pdu", "framer_tcpascii", "framer_rtubin", "exec_other"]
 PROP_FILES = ["C09_e2e", "C09_e2e_ascii", "C09_e2e_rtu"]
-CASE_DEPS = ["theories/CorrE2E.vo", "theories/CorrE2ESerial.vo"]
+CASE_DEPS = ["theories/CorrE2E.vo", "theories/CorrE2ESerial.vo", "theories/CorrE2EExt.vo"]
 TRUSTED = [
     "end-to-end composition (Props/C09_e2e.v): hand-written glue in theories/EndToEnd.v — request object -> execute "
     "attributes (req_of_obj), response -> response object (obj_of_rsp), the serving loop (one framer call per read, "
@@ -79,6 +79,10 @@ def msg_pdu(m):
         return b"\x17" + u16(m[1]) + u16(m[2]) + u16(m[3]) + u16(len(ws)) + bytes([2 * len(ws)]) + b"".join(u16(v) for v in ws)
     if k == "raw":
         return bytes([m[1]]) + bytes(m[2])
+    if k == "station":
+        return bytes([m[1]])
+    if k == "diag":
+        return b"\x08" + u16(m[1]) + u16(m[2])
     raise ValueError(k)
 
 
@@ -100,6 +104,10 @@ def msg_term(m):
         return "QMsg (MReadWriteRegsReq %s %s %s %s)" % (z(m[1]), z(m[2]), z(m[3]), zlist(m[4]))
     if k == "raw":
         return "QRaw %s (nb %s)" % (z(m[1]), zlist(m[2]))
+    if k == "station":
+        return "QMsg %s" % {7: "MReadExcStatusReq", 11: "MCommEventCounterReq", 12: "MCommEventLogReq", 17: "MReportSlaveIdReq"}[m[1]]
+    if k == "diag":
+        return "QMsg (MDiagReq %s [%s])" % (z(m[1]), z(m[2]))
     raise ValueError(k)
 
 
@@ -224,10 +232,11 @@ def build_context(sc):
     return ctx, blocks
 
 
-def run_real(sc):
+def run_real(sc, keep_mcb=False):
     """-> (bytes written, {uid: dump}, escaped exception names)"""
     from pymodbus.server import sync
-    L.reset_mcb()
+    if not keep_mcb:
+        L.reset_mcb()
     ctx, blocks = build_context(sc)
     reads = [bytes.fromhex(c) for c in sc["chunks"]]
     written, escaped = [], []
@@ -311,7 +320,8 @@ def run_real(sc):
         else:
             raise ValueError(fe)
     finally:
-        L.reset_mcb()
+        if not keep_mcb:
+            L.reset_mcb()
     dumps = {u: X.dump_blocks(blocks[u]) for u, _ in sc["units"]}
     return b"".join(written), dumps, escaped
 
@@ -363,9 +373,10 @@ def gen_serial_scenario(r, framing):
             "chunks": [c.hex() for c in chunks]}
 
 
-def run_real_serial(sc):
+def run_real_serial(sc, keep_mcb=False):
     from pymodbus.server import sync
-    L.reset_mcb()
+    if not keep_mcb:
+        L.reset_mcb()
     ctx, blocks = build_context(sc)
     reads = [bytes.fromhex(c) for c in sc["chunks"]]
     written, escaped = [], []
@@ -394,7 +405,8 @@ def run_real_serial(sc):
             escaped.append(type(e).__name__)
         h.finish()
     finally:
-        L.reset_mcb()
+        if not keep_mcb:
+            L.reset_mcb()
     dumps = {u: X.dump_blocks(blocks[u]) for u, _ in sc["units"]}
     return b"".join(written), dumps, escaped
 
@@ -430,6 +442,91 @@ def serial_suites(tier):
                 _BROKEN.append("e2e_serial_%s: exception escaped the handler: %s %s" % (framing, escaped, sc))
             cases.append(c)
         out.append(Suite("e2e_serial_" + framing, SERIAL_IMPORTS, SERIAL_CHK, cases, shard=50))
+    return out
+
+
+# ----------------------------------------------------------------------------- extended composition: station requests
+
+EXT_IMPORTS = ("From PM.theories Require Import Base Expr Struct FrBaseA PduSpec Store Exec ExecSpec CorrExec Device Server "
+               "EndToEnd EndToEndExt CorrE2E CorrE2ESerial CorrE2EExt.\n"
+               "Open Scope string_scope.")
+EXT_CHK = "chk_e2e_ext"
+EXT_SUBS = [0, 2, 3, 4, 10, 11, 12, 13, 14, 15, 16, 17, 18, 20]
+EXT_COMBOS = [("tcp", "sync_tcp"), ("tcp", "aio_tcp"), ("ascii", "sync_serial"), ("rtu", "sync_serial")]
+
+
+def gen_station_msg(r):
+    if r.random() < 0.35:
+        return ("station", r.choice([7, 11, 12, 17]))
+    return ("diag", r.choice(EXT_SUBS), r.choice([0, 0xFF00, 0x0A00, 0x4100, 1, 0xFFFF, r.randrange(65536)]))
+
+
+def gen_ext_scenario(r, kind, fe):
+    sc = gen_scenario(r, fe) if kind == "tcp" else gen_serial_scenario(r, kind)
+    sc["kind"] = kind
+    # about half of the requests become requests to the station (FC 7, 8, 11, 12, 17), inside the region where the
+    # code follows the document: event counter 0, empty event log (no application-side events in these runs)
+    for q in sc["reqs"]:
+        if r.random() < 0.5:
+            q["msg"] = gen_station_msg(r)
+    sc["counters"] = [r.choice([0, 0, 1, 255, 256, 65535, r.randrange(65536)]) for _ in range(8)]
+    if kind == "tcp":
+        stream = b"".join(adu_of(q) for q in sc["reqs"])
+        sc["chunks"] = [c.hex() for c in cut(r, stream, sc["eof_kind"])]
+    else:
+        stream = b"".join(L.adu(kind, 0, q["uid"], msg_pdu(q["msg"])) for q in sc["reqs"])
+        n = len(stream)
+        pts = sorted(set(r.randrange(1, n) for _ in range(r.choice([0, 1, 2, 5, 12])))) if n > 1 else []
+        chunks, prev = [], 0
+        for p_ in pts + [n]:
+            chunks.append(stream[prev:p_])
+            prev = p_
+        sc["chunks"] = [c.hex() for c in chunks]
+    return sc
+
+
+def ext_case_of(sc):
+    from props import c04_x_other as O
+    m = O.mcb_reset()
+    L.reset_mcb()
+    for name, v in zip(O.COUNTERS, sc["counters"]):
+        setattr(m.Counter, name, v)
+    dev0 = O.dump_device(m)
+    try:
+        if sc["kind"] == "tcp":
+            written, dumps, escaped = run_real(sc, keep_mcb=True)
+        else:
+            written, dumps, escaped = run_real_serial(sc, keep_mcb=True)
+        dev1 = O.dump_device(O.mcb())
+    finally:
+        O.mcb_reset()
+        L.reset_mcb()
+    reqs = lst("{| q_tid := %s; q_pid := %s; q_uid := %s; q_body := %s |}" % (
+        z(q["tid"]), z(q["pid"]), z(q["uid"]), msg_term(q["msg"])) for q in sc["reqs"])
+    term = ("{| x_kind := %s; x_fe := %s; x_cfg := %s; x_eof := %s; x_layouts := %s; x_dev0 := %s; x_reqs := %s; "
+            "x_chunks := %s; x_written := %s; x_final := %s; x_dev1 := %s |}") % (
+        {"tcp": "XTcp", "ascii": "XAscii", "rtu": "XRtu"}[sc["kind"]], string(sc["fe"]), L.cfg_term(sc["cfg"]),
+        boolean(sc["fe"] == "sync_tcp"),
+        lst("(%s, %s)" % (z(u), X.layout_term(Lay)) for u, Lay in sc["units"]), O.device_term(dev0),
+        reqs, lst(nb(bytes.fromhex(c)) for c in sc["chunks"]), nb(written),
+        lst("(%s, %s)" % (z(u), dump_list_term(dumps[u])) for u, _ in sc["units"]), O.device_term(dev1))
+    desc = {"scenario": sc, "written": written.hex(), "escaped": escaped, "dev0": dev0, "dev1": dev1}
+    return Case(term, desc, kind="%s/%s" % (sc["kind"], sc["fe"]), nontrivial=bool(written)), escaped
+
+
+def ext_suites(tier):
+    out = []
+    for kind, fe in EXT_COMBOS:
+        name = "e2e_ext_%s_%s" % (kind, fe)
+        r = common.rng("C09." + name)
+        n = 120 * (1 if tier == "quick" else 6)
+        cases = []
+        for _ in range(n):
+            c, escaped = ext_case_of(gen_ext_scenario(r, kind, fe))
+            if escaped:
+                _BROKEN.append("%s: exception escaped the front-end: %s" % (name, escaped))
+            cases.append(c)
+        out.append(Suite(name, EXT_IMPORTS, EXT_CHK, cases, shard=40))
     return out
 
 
@@ -472,7 +569,7 @@ def suites(tier):
                 _BROKEN.append("e2e_%s: exception escaped the front-end on well-formed traffic: %s %s" % (fe, escaped, sc))
             cases.append(c)
         out.append(Suite("e2e_" + fe, IMPORTS, CHK, cases, shard=60))
-    return out + serial_suites(tier)
+    return out + serial_suites(tier) + ext_suites(tier)
 
 
 def extra_checks(tier):
@@ -492,7 +589,10 @@ def replay_case(suite, desc):
     sc["units"] = [(u, X.norm_layout(Lay)) for u, Lay in sc["units"]]
     for q in sc["reqs"]:
         q["msg"] = tuple(q["msg"])
-    if suite.startswith("e2e_serial_"):
+    if suite.startswith("e2e_ext_"):
+        c, escaped = ext_case_of(sc)
+        r = coqrun.eval_cases("C09_e2e_replay", EXT_IMPORTS, EXT_CHK, [c.term])
+    elif suite.startswith("e2e_serial_"):
         c, escaped = serial_case_of(sc)
         r = coqrun.eval_cases("C09_e2e_replay", SERIAL_IMPORTS, SERIAL_CHK, [c.term])
     else:
